@@ -144,3 +144,19 @@ Proof.
   destruct (advance_start repo_cfg (links s) t (mkDs (objs s) (dats s) (bag s)) i Q F PC TD) as (A & B & C & D).
   split; auto. destruct Q as (_ & Q1 & _). apply Q1. rewrite PC. lia.
 Qed.
+
+(* K6b: a reconnect inside a topic deletion.  The UNREGISTER of topic 0 has been served, the
+   connection is cut, the next two ticks notice and reconnect while topic 0 is exiting but
+   still in the map: connectCallback registers it again and nothing removes it afterwards. *)
+Definition k6b_hist : list op :=
+  [Reconfigure [0]; TopicCreate 0; TopicAdvance 0; TopicAdvance 0; Deliver 0;
+   TopicDeleteBegin 0; Deliver 0; FReply 0 [RClose]; Tick; Tick; TopicDeleteEnd 0].
+Definition k6b_suf : list op := [Tick; Tick].
+
+Lemma k6b_witness :
+  hazard_free repo_cfg (Run init) (k6b_hist ++ k6b_suf) = false /\
+  match run repo_cfg (Run init) (k6b_hist ++ k6b_suf) with
+  | Run s => bag s = [] /\ live_keys (objs s) = [] /\ map l_regs (links s) = [[KT 0%N]]
+  | Crashed => False
+  end.
+Proof. vm_compute. repeat split; reflexivity. Qed.
